@@ -576,7 +576,9 @@ class Exec(object):
             t = z3.Unit(term_of(vs[0]))
             for x in vs[1:]:
                 t = z3.Concat(t, z3.Unit(term_of(x)))
-            return self.val(s.alloc(HList(et, t)), s)
+            lst = s.alloc(HList(et, t))
+            s.heap[lst.ref].items = list(vs)
+            return self.val(lst, s)
         return self.bind(self.eval_list(n.elts, st), go)
 
     def guess_elem_type(self, n, fr):
